@@ -7,7 +7,7 @@ DECIDES = ('for remove_knot x {curve, surface u/v, volume u/v/w}: same block/dir
            '`check_num and num[k] > s_k`, s_k = find_multiplicity(param[k], knotvector_k) (GD2); wrappers as in C04 (WR1). [SKEL, bounded, exact per tuple] '
            'helpers.knot_removal runs the in-place algorithm A5.8 on a working copy: no element of the input array is read after the corresponding '
            'element of the working copy has been replaced - neither by a later removal step nor by the final shift (SS1) - and the result has '
-           'n - num cells, every one a defined point of the input shape, for rows and for volume slabs (SK3). [ORDER TYPES, exact per type] helpers.knot_removal_kv returns the old knot vector without exactly num copies of the removed knot (KRM1). the [0, 1] parameter rejection is only evaluated for shapes with normalised knot vectors (RG1). the unweighted-points / weights views of rational shapes cannot survive the replacement of the net (IV1 restricted to these caches). the wrappers reach the operation on every normally returning path (WR1.always-delegates), optional coordinates are tested with `is None` (NONE1), the gathered control point view is re-read after the previous block replaced the net (GA1), and knot_removal_kv leaves its input knot vector untouched (PU1).')
+           'n - num cells, every one a defined point of the input shape, for rows and for volume slabs (SK3). [ORDER TYPES, exact per type] helpers.knot_removal_kv returns the old knot vector without exactly num copies of the removed knot (KRM1). the [0, 1] parameter rejection is only evaluated for shapes with normalised knot vectors (RG1). the unweighted-points / weights views of rational shapes cannot survive the replacement of the net (IV1 restricted to these caches). the wrappers reach the operation on every normally returning path (WR1.always-delegates), optional coordinates are tested with `is None` (NONE1), the gathered control point view is re-read after the previous block replaced the net (GA1), and knot_removal_kv leaves its input knot vector untouched (PU1). [SKEL, abstract object] interpreted on an object created with normalize_kv=False, the named methods never reach utilities.check_params and hand the request on to the evaluator / operation (RG2: spelling-independent form of RG1).')
 NOT_DECIDED = ('exactness of A5.8 beyond its dataflow: the alpha_i/alpha_j formulas, the removability test and its loop bound (an overrun of the '
                'inner loop makes the test fail for removable knots - a numerical consequence), restoration of the original control points.')
 TECHNIQUE = 'axis-tag dataflow, stride rule in polynomial normal form, CFG dominance of guards, structural gather/scatter rules, bounded index-skeleton interpretation with working-copy tracking'
@@ -33,7 +33,7 @@ def check(m, run):
     from .. import rules_state as rs
     rs.iv1(m, run, [('NURBS', 'Curve'), ('NURBS', 'Surface'), ('NURBS', 'Volume')], caches_filter=lambda c: c in ("_cache['ctrlpts']", "_cache['weights']"))
     oc.unit_range_rule(m, run, ('remove_knot',))
-    run.floor('RG1.unit-range-check-only-when-normalised', 3, 'remove_knot of the three shape classes')
+    run.floor('RG2.no-unit-range-test-for-un-normalised-shapes', 3, 'remove_knot of the three shape classes')
     skel_drivers.c06(m, run)
     skel_drivers.c06_kv(m, run)
     kv_pure(m, run, 'helpers.knot_removal_kv')
